@@ -25,9 +25,13 @@ GW_EXTRA = {
     "early_v": {"method": "Variable", "series": [[-30, 2.5], [15, 0.8], [9999, 1.2]]},  # an observation before the window
     "early_c": {"method": "Constant", "series": [[-45, 3.0], [-14, 2.5], [15, 0.8], [40, 1.6]]},
     "all_before_c": {"method": "Constant", "series": [[-60, 2.2], [-20, 1.1]]},
+    "0": {"method": "Constant", "dates": ["{start}"], "values": [0.0]},   # a table at the soil surface
+    "touch0_v": {"method": "Variable", "series": [[0, 0.6], [20, 0.0], [40, 0.6]]},   # one day exactly at the surface
+    "touch0_c": {"method": "Constant", "series": [[0, 0.5], [15, 0.0], [30, 0.9]]},
+    "0.05": {"method": "Constant", "dates": ["{start}"], "values": [0.05]},   # inside the first compartment, above its centre
 }
 A.GW.update(GW_EXTRA)
-ALL_GW = ["none", "0.3", "0.8", "1.5", "2.5", "6", "50", "rising_c", "rising_v", "falling_v", "falling_c", "two_v", "four_c", "four_v", "late_v", "late_c", "early_v", "early_c", "all_before_c"]
+ALL_GW = ["none", "0.3", "0.8", "1.5", "2.5", "6", "50", "rising_c", "rising_v", "falling_v", "falling_c", "two_v", "four_c", "four_v", "late_v", "late_c", "early_v", "early_c", "all_before_c", "0", "touch0_v", "touch0_c", "0.05"]
 
 
 def scenarios(tier, seed=0):
